@@ -98,6 +98,7 @@ func (p c06) Gen(r *simhook.Rand, tier string, idx int) harness.Scenario {
 		// class "health": an advanced-TCP health checker probes the backends; one backend fails its probes for a
 		// while and recovers, and is removed from the service at the moment the monitor is about to mark it
 		ts.Class = "e2e-health"
+		ts.SlackMs = []int{0, 20, 100}[r.Intn(3)] // a health verdict is about time: keep the timers of the monitor nearly punctual
 		ts.Env.BackupFrom = 0
 		ts.Env.InitHosts = nil
 		fall, rise := 1+r.Intn(2), 1+r.Intn(2)
@@ -107,6 +108,19 @@ func (p c06) Gen(r *simhook.Rand, tier string, idx int) harness.Scenario {
 		up := down + (fall+2+r.Intn(3))*1000
 		ts.Faults = append(ts.Faults, TCPFault{Kind: "probe-fail", Node: h, AtMs: down})
 		ts.Faults = append(ts.Faults, TCPFault{Kind: "probe-ok", Node: h, AtMs: up})
+		if r.Chance(1, 2) {
+			// the discovery service announces the (already known) host again while it is marked unhealthy: the
+			// controller calls OnSvcHostAdd with a fresh Host object; membership and health must not change
+			readd := down + (fall+1)*1000 + r.Intn(800)
+			up2 := readd + 3000 + r.Intn(4000)
+			ts.Faults[len(ts.Faults)-1].AtMs = up2
+			ts.Faults = append(ts.Faults, TCPFault{Kind: "host-add", Node: h, AtMs: readd})
+			for i := range ts.Conns {
+				ts.Conns[i].After = 0
+				ts.Conns[i].AfterMs = r.Intn(up2 + 8000)
+			}
+			return &C06Scenario{Kind: "e2e", T: ts}
+		}
 		switch r.Intn(3) {
 		case 0:
 			ts.Faults = append(ts.Faults, TCPFault{Kind: "host-remove", Node: h, AtMs: up, Site: "MarkHostHealthy#"})
@@ -326,10 +340,16 @@ func (p c06) runE2E(t *testing.T, sc *C06Scenario) harness.Outcome {
 		}
 		if ts.Env.HC != nil {
 			// considered healthy: a backend whose probes have been failing for far longer than the fall threshold needs
-			if since, down := w.probeDownSince[bi]; down && len(w.members) > 1 {
-				need := time.Duration((ts.Env.HC.Fall+3)*ts.Env.HC.IntervalMs+ts.Env.HC.TimeoutMs) * time.Millisecond
-				if cl.connectedAt.Sub(since) > need {
-					return &simrt.Violation{Clause: "relayed-to-healthy-host", Detail: fmt.Sprintf("connection %s was relayed to backend %d whose health probes had been failing for %v (fall threshold %d, interval %dms) while other members were available", cl.name, bi, cl.connectedAt.Sub(since), ts.Env.HC.Fall, ts.Env.HC.IntervalMs)}
+			// (the run is judged at its end: windows that are over by then count as well)
+			windows := append([][2]time.Time(nil), w.probeDownPast[bi]...)
+			if since, down := w.probeDownSince[bi]; down {
+				windows = append(windows, [2]time.Time{since, time.Now().Add(time.Hour)})
+			}
+			// every timer of the monitor (ticker, probe timeout) may fire late by the run's timer slack
+			need := time.Duration((ts.Env.HC.Fall+3)*(ts.Env.HC.IntervalMs+ts.SlackMs)+ts.Env.HC.TimeoutMs+ts.SlackMs) * time.Millisecond
+			for _, win := range windows {
+				if len(w.members) > 1 && cl.connectedAt.Sub(win[0]) > need && cl.connectedAt.Before(win[1]) {
+					return &simrt.Violation{Clause: "relayed-to-healthy-host", Detail: fmt.Sprintf("connection %s was relayed to backend %d whose health probes had been failing for %v (fall threshold %d, interval %dms) while other members were available", cl.name, bi, cl.connectedAt.Sub(win[0]), ts.Env.HC.Fall, ts.Env.HC.IntervalMs)}
 				}
 			}
 		}
